@@ -173,9 +173,14 @@ func (x *Exec) leavesOf(t types.Type) []leaf {
 		}
 		out = append(out, leaf{"off", x.intSort(64)}, leaf{"len", x.intSort(64)}, leaf{"cap", x.intSort(64)}, leaf{"nil", BoolSort})
 	case kArray:
-		el := t.Underlying().(*types.Array).Elem()
+		at := t.Underlying().(*types.Array)
+		el := at.Elem()
+		ixs := x.idxSort()
+		if at.Len() == strMapLen {
+			ixs = StrSort
+		}
 		for _, l := range x.leavesOf(el) {
-			out = append(out, leaf{join("arr", l.path), ArraySort(x.idxSort(), l.sort)})
+			out = append(out, leaf{join("arr", l.path), ArraySort(ixs, l.sort)})
 		}
 	case kStruct:
 		st := t.Underlying().(*types.Struct)
